@@ -86,6 +86,27 @@ def run(tier):
         else:
             scr = readtrace.read_script(cid, path, sink, sizes, pre=pre2)
         scripts.append(scr); meta.append((cid, name, path, sink, rf, mode))
+    # allocation failures: reads of files with a damaged chunk that still decompresses while every allocation made by zchunk's
+    # own code is refused in turn (once / from there on): a read may fail, no byte of the damaged chunk may be released
+    from .. import allocfault
+    nsweep = 0; seen_files = {}
+    for i, (name, b, sizes, pre, rf, mode) in list(enumerate(cases)):
+        fkey = name.split("-flip")[0]
+        if "-flip" not in name or pre or seen_files.get(fkey, 0) >= (2 if tier == "quick" else 6) or sizes[0] not in (100000,) + tuple(e["ulen"] for e in rf.h.entries):
+            continue
+        bad = [c for c in rf.chunks[1:] if c["present"] and not c["digest_ok"] and c["decodes"]]
+        if not bad:
+            continue
+        seen_files[fkey] = seen_files.get(fkey, 0) + 1
+        path = meta[i][2]
+        base = readtrace.read_script("k%d-afbase" % i, path, os.path.join(wd, "k%d-afbase.out" % i), sizes)
+        na, _ev = allocfault._count(base)
+        for k in range(1, na + 1):
+            for ln in (1, 100000):
+                cid = "k%d-a%d-%d" % (i, k, ln); sink = os.path.join(wd, cid + ".out")
+                scripts.append(allocfault._arm(readtrace.read_script(cid, path, sink, sizes), k, ln))
+                meta.append((cid, name + ", allocation %d of %d refused%s" % (k, na, "" if ln == 1 else " and every later one"), path, sink, rf, "alloc")); nsweep += 1
+    ck.extra["allocation_sweep_runs"] = nsweep
     nproc = 12
     parts = ["".join(scripts[i::nproc]) for i in range(nproc)]
     evs = [e for part in common.run_driver_parallel(parts, "plain", timeout=2400) for e in part]
@@ -93,13 +114,17 @@ def run(tier):
     trace = []; owner = []
     for (cid, name, path, sink, rf, mode) in meta:
         ce = bycase.get(cid, [])
+        if mode == "alloc":
+            ce = [({"op": "abort"} if e["op"] == "Crash" else e) for e in ce]
         if mode == "reopen":
             # keep only the second execution (after the second init_read)
             idx = [j for j, e in enumerate(ce) if e["op"] == "init_read"]
             ce = ce[idx[-1]:] if idx else ce
         t = readtrace.enrich(ce, sink, rf)
+        if mode == "alloc" and any(e["op"] == "abort" for e in ce):
+            t.append({"op": "abort"})
         if not t or t[0]["op"] != "open":
-            t = [{"op": "open", "f": readtrace.facts(rf), "ret": 0}, {"op": "Crash", "why": "no events"}]
+            t = [{"op": "open", "f": readtrace.facts(rf), "ret": 0}] + ([{"op": "Crash", "why": "no events"}] if mode != "alloc" else t)
         for x in t:
             trace.append(x); owner.append(cid)
         ck.case(name)
